@@ -81,12 +81,29 @@ pub fn exec(line: &str) -> String {
         },
         ["display", a] => hex(shape!(a).to_string().as_bytes()),
         ["echo", a] => sexp(&shape!(a)),
+        ["compile", name, rest @ ..] => {
+            let mut srcs = Vec::new();
+            for h in rest {
+                srcs.push(text!(h));
+            }
+            compile_op(&text!(name), &srcs, false)
+        }
+        ["p_c16", name, rest @ ..] => {
+            let mut srcs = Vec::new();
+            for h in rest {
+                srcs.push(text!(h));
+            }
+            compile_op(&text!(name), &srcs, true)
+        }
         ["gen", a] => {
             // json_shape_build links the published json_shape 0.5.1: convert through serde
+            // through the serde form: the harness does not name the JsonShape type the build crate links
             let s0 = shape!(a);
             let j = serde_json::to_string(&s0).unwrap();
-            let old: json_shape_old::JsonShape = serde_json::from_str(&j).unwrap();
-            hex(json_shape_build::verif_generate(&old).as_bytes())
+            match json_shape_build::verif_generate_json(&j) {
+                Some(t) => hex(t.as_bytes()),
+                None => "violated: build crate cannot read the library's serde form of the shape".to_string(),
+            }
         }
         ["lex", h] => {
             let (toks, diags) = json_shape::verif::lex(&text!(h));
@@ -294,6 +311,94 @@ fn p_c08(d: &str, e: &str) -> String {
         return "violated: array structure".into();
     }
     format!("ok {} {}", sexp(&s1), sexp(&s2))
+}
+
+fn compile_op(name: &str, srcs: &[String], check: bool) -> String {
+    use std::sync::atomic::{AtomicU64, Ordering};
+    static N: AtomicU64 = AtomicU64::new(0);
+    let base = std::env::temp_dir().join(format!("verif_compile_{}_{}", std::process::id(), N.fetch_add(1, Ordering::Relaxed)));
+    let src_dir = base.join("src");
+    let out_dir = base.join("out");
+    std::fs::create_dir_all(&src_dir).unwrap();
+    std::fs::create_dir_all(&out_dir).unwrap();
+    let mut paths = Vec::new();
+    for (i, t) in srcs.iter().enumerate() {
+        let p = src_dir.join(format!("s{i}.json"));
+        std::fs::write(&p, t).unwrap();
+        paths.push(p);
+    }
+    // SAFETY: operations run sequentially in this process
+    unsafe { std::env::set_var("OUT_DIR", &out_dir) };
+    let leaked: &'static str = Box::leak(name.to_string().into_boxed_str());
+    let run = |paths: &[std::path::PathBuf]| {
+        std::panic::catch_unwind(std::panic::AssertUnwindSafe(|| json_shape_build::compile_json(leaked, paths)))
+    };
+    let listing = |d: &std::path::Path| -> Vec<String> {
+        let mut v: Vec<String> = std::fs::read_dir(d)
+            .map(|r| r.filter_map(|e| e.ok()).map(|e| e.file_name().to_string_lossy().to_string()).collect())
+            .unwrap_or_default();
+        v.sort();
+        v
+    };
+    let first = run(&paths);
+    let out = match first {
+        Err(_) => {
+            let files = listing(&out_dir);
+            if check && !files.is_empty() {
+                "violated: panic left an output file".to_string()
+            } else {
+                "panic".to_string()
+            }
+        }
+        Ok(Err(e)) => {
+            let files = listing(&out_dir);
+            if check && !files.is_empty() {
+                format!("violated: error `{}` left files {:?}", e.kind(), files)
+            } else {
+                "err".to_string()
+            }
+        }
+        Ok(Ok(text)) => {
+            let expected_file = out_dir.join(format!("{name}.gen.shape.rs"));
+            let shape = JsonShape::from_sources(srcs).ok();
+            let shape_json = shape.as_ref().map(|s| serde_json::to_string(s).unwrap());
+            let linked = json_shape_build::verif_infer_json(srcs);
+            let mut verdict = String::new();
+            if check {
+                let files = listing(&out_dir);
+                let content = std::fs::read_to_string(&expected_file);
+                if files != vec![format!("{name}.gen.shape.rs")] {
+                    verdict = format!("violated: files {:?}, expected exactly {name}.gen.shape.rs", files);
+                } else if content.as_deref().ok() != Some(&format!("// Generated `JsonShape` file.\nuse serde;\n\n{text}")) {
+                    verdict = "violated: file is not header + returned text".into();
+                } else {
+                    // determinism: a second run, same bytes
+                    let second = run(&paths);
+                    let again = std::fs::read_to_string(&expected_file).ok();
+                    match second {
+                        Ok(Ok(t2)) if t2 == text && again == content.ok() => {}
+                        _ => verdict = "violated: second compilation differs".into(),
+                    }
+                    let as_value = |j: &Option<String>| j.as_ref().and_then(|j| serde_json::from_str::<serde_json::Value>(j).ok());
+                    if verdict.is_empty() && as_value(&linked) != as_value(&shape_json) {
+                        verdict = "violated: the build crate infers a different shape from the sources than the library".into();
+                    }
+                    if let Some(j) = &shape_json {
+                        if verdict.is_empty() && json_shape_build::verif_generate_json(j).as_deref() != Some(text.as_str()) {
+                            verdict = "violated: returned text is not the generator's text for the inferred shape".into();
+                        }
+                    }
+                }
+            }
+            if !verdict.is_empty() {
+                verdict
+            } else {
+                format!("ok {} {}", hex(text.as_bytes()), shape.map_or("?".to_string(), |s| sexp(&s)))
+            }
+        }
+    };
+    let _ = std::fs::remove_dir_all(&base);
+    out
 }
 
 /// diagnostics are compared by a small kind enum, not by message text
